@@ -74,12 +74,13 @@ def _gen_ops(rng, keys, n, tag):
         r = rng.random()
         k = rng.choice(keys)
         v = '%s.%d' % (tag, i)
+        shared = rng.random() < 0.08     # a value that is the very object some caller passes as a default
         if r < 0.28:
-            ops.append(['set', k, v])
+            ops.append(['set', k, {'k': 'n'} if shared else v])
         elif r < 0.42:
             ops.append(['get', k])
         elif r < 0.48:
-            ops.append(['getd', k, 'dflt'])
+            ops.append(['getd', k, {'k': 'n'} if shared else 'dflt'])
         elif r < 0.54:
             ops.append(['setdefault', k, v])
         elif r < 0.60:
@@ -87,7 +88,7 @@ def _gen_ops(rng, keys, n, tag):
         elif r < 0.64:
             ops.append(['pop', k])
         elif r < 0.66:
-            ops.append(['popd', k, 'dflt'])
+            ops.append(['popd', k, {'k': 'n'} if rng.random() < 0.3 else 'dflt'])
         elif r < 0.69:
             ops.append(['popitem'])
         elif r < 0.71:
